@@ -37,6 +37,13 @@ CHECKS["C12"] = dict(engine="plan", level=("model_checking", "TLC exhaustively c
     note="the literal product space (1e11) is sampled beyond the exhaustive sub-grid; stop <= start and irreversible-step cursors with block != LIB are outside the generated space; stub cursor resolver and final-block callbacks",
     technique="TLA+ spec (Plan.tla/MCPlan.tla) model-checked by TLC + trace validation (TracePlan.tla) of the real resolution and planning code")
 
+CHECKS["C14"] = dict(engine="graph", level=("model_checking", "TLC enumerates every acyclic module graph of up to 3 (4 in the thorough tier) modules and checks that the transcription of computeStages satisfies the staging predicates of Graph.tla; the real exec.NewOutputModuleGraph is run on thousands of random valid graphs of up to 12 modules (every output module) under a watchdog and TraceGraph.tla judges the OBSERVED staging, used modules and store list with the same predicates (drift against the transcription is reported separately).", "6/C14"),
+    note="validity = manifest.ValidateModules; graphs above 4 modules are sampled, not enumerated; staging termination is a 3 s watchdog",
+    technique="TLA+ spec (Graph.tla/MCGraph.tla) model-checked by TLC + trace validation (TraceGraph.tla) of real stagings")
+CHECKS["C06"] = dict(engine="sig", level=("model_checking", "Graph.tla defines the cache identity as a term Sig (a perfect hash); TLC checks on every graph of up to 3 (4) modules that a single-field mutation changes Sig of exactly the module and its descendants and that renaming changes nothing; real identifiers (exec.NewOutputModuleGraph(...).ModuleHashes()) of random graphs are computed before and after 14 classes of single-field mutations and 3 identity-preserving transformations and TraceGraph.tla requires 'real identifier changed <=> Sig changed' for every module.", "6/C06"),
+    note="SHA-1 collisions ignored; alias import through the manifest reader is represented by rename-all; three open known findings (input mode / same-kind input order / retarget inside ancestors are not hashed)",
+    technique="TLA+ term-algebra spec of the identifier (Graph.tla Sig) checked by TLC + trace validation of real module hashes under mutation")
+
 NOT_YET = "machinery for this property is not built yet in this revision (work in progress; see DESIGN.md section 9 for the plan)"
 
 
